@@ -12,6 +12,9 @@ CHECKS = {
  "C02": dict(engine="vsim", technique="runtime monitoring: exactly-once / intact / valid accounting of uniquely tagged application messages over simulator histories against the canonical chain",
    text="Exploration: on the same histories as C01 every application message (unique body) created on the canonical chain must be stored exactly once, unaltered and Processed at every converged client that was in its sending state (inside the configured past-epoch window at first delivery); messages of losing branches must not be left valid.",
    note="Judges only clients that converged (others are C01's business); default sender-ratchet windows are never exceeded by the generated bursts.", ref="5/C02"),
+ "C06": dict(engine="vsim+adversary", technique="runtime monitoring: structure-aware hostile-input generation at four depths against a live victim client, panic/abnormal-exit observation in sharded child processes, before/after fingerprint oracle on every refusal (hostile inputs and ordinary histories)",
+   text="Exploration: N hostile inputs (wrapper fields; correctly NIP-44-wrapped mutated MLS bytes; authentic MLS messages with hostile plaintext and unauthorised proposals/commits; welcome rumors, key-package events, every String parameter of the uniffi facade) are delivered to a victim in states idle / pending commit / pending proposals / inactive with a second group present. No call may panic (catch_unwind in the child, abnormal child exit seen by the parent) and every refusal must leave the fingerprint of every group, the group list and the pending welcomes unchanged. The same refusal oracle runs over ordinary simulator histories.",
+   note="Third-party dependencies are built without debug assertions (OpenMLS debug_asserts on every AEAD failure), the mdk crates with them; SIGKILL/watchdog of a shard is inconclusive; the dedup/failure record is not observable state.", ref="5/C06"),
  "C07": dict(engine="vsim", technique="runtime monitoring: re-delivery probes inside simulator histories with before/after fingerprint comparison of every group of the client",
    text="Exploration: events that have taken effect at a client (stored message, applied or superseded commit, queued proposal, own echoes) are re-delivered 1-3 times at random later points and after the fixpoint; the complete fingerprint (record, relays, MLS, members, group data, pending proposals, messages with states) of every group must be unchanged.",
    note="The dedup/failure record is not part of the observable state (as the property words it); processed_at is excluded.", ref="5/C07"),
@@ -64,7 +67,7 @@ def main():
         },
         "engines": [
             {"name": "vstore", "path": "/verif/harness/src/vstore", "serves_properties": ["C09", "C10", "C18", "C19"], "kind_free_text": "storage-level operation language, generator, interpreter over real backends, full read-out, executable reference model"},
-            {"name": "vsim", "path": "/verif/harness/src/sim", "serves_properties": ["C01", "C02", "C07", "C08", "C18", "C20"], "kind_free_text": "world simulator: N real MDK clients (memory / SQLite), relay log, harness-chosen delivery schedules, pinned wrapper timestamps, oracle replica, per-step monitors"},
+            {"name": "vsim", "path": "/verif/harness/src/sim", "serves_properties": ["C01", "C02", "C06", "C07", "C08", "C18", "C20"], "kind_free_text": "world simulator: N real MDK clients (memory / SQLite), relay log, harness-chosen delivery schedules, pinned wrapper timestamps, oracle replica, per-step monitors"},
         ],
         "checks": checks,
         "notes": "All checks: exit 0 = held on what was observed or inconclusive (reason in evidence.coverage.inconclusive); exit 1 + VIOLATION line = violated; exit 2 = harness does not build. Known findings: /verif/known-findings.txt.",
